@@ -41,7 +41,7 @@ def _trace(ctx, path, mindata):
             workers=1, timeout=900)
     bad = None
     if not r["ok"]:
-        m = re.search(r'"CODEC_MISMATCH_AT_LINE", (\d+)', r["out"])
+        m = re.search(r'"CODEC_MISMATCH_AT_LINE"\s*,\s*(\d+)', r["out"])
         if not m:
             raise Infra("Trace_Codec failed:\n" + r["out"][-2000:])
         bad = int(m.group(1))
